@@ -31,6 +31,7 @@ type Script struct {
 	Chains [][]string `json:"chains"`
 	Steps  []string   `json:"steps"`
 	Free   bool       `json:"free"`
+	Big    bool       `json:"bigbase"` // the logger given to NewHandler already carries more than 500 bytes of context
 	Seed   int64      `json:"seed"`
 	// proxy
 	Cap string `json:"cap"`
@@ -109,11 +110,13 @@ func fieldsOf(line []byte) [][2]string {
 		return [][2]string{{"<invalid>", string(line)}}
 	}
 	for dec.More() {
-		k, _ := dec.Token()
+		k, err := dec.Token()
 		var v interface{}
-		dec.Decode(&v)
+		if err != nil || dec.Decode(&v) != nil {
+			return append(res, [2]string{"<invalid>", string(line)})
+		}
 		ks, _ := k.(string)
-		if ks == "message" {
+		if ks == "message" || ks == "pad" {
 			continue
 		}
 		res = append(res, [2]string{ks, fmt.Sprint(v)})
@@ -126,6 +129,9 @@ func playIso(sc Script) {
 	emit(map[string]interface{}{"a": "Reset", "id": sc.ID})
 	s := &sink{}
 	base := zerolog.New(s).With().Str("base", "b").Logger()
+	if sc.Big {
+		base = zerolog.New(s).With().Str("base", "b").Str("pad", strings.Repeat("p", 520)).Logger()
+	}
 	type reqState struct {
 		want [][2]string
 		got  [][2]string
